@@ -1751,10 +1751,20 @@ pub fn replay_point(ctx: &Ctx, v: &Value) -> i32 {
         "C16" => c16b_point(&case, &r, &po, &st, &mut acc),
         "C18" => {
             let d = case.g.dim;
-            let want = outcome_bits(&r.sampler.sample(&x, &r.ed, &st));
+            // the violating sampler may have been built with a scaled loop signature
+            let scaled_sampler = v["extra"]["signature_times"].as_i64().and_then(|mul| {
+                let scaled: Vec<Vec<isize>> = r.kin.sig.iter().map(|row| row.iter().map(|&x| x as isize * mul as isize).collect()).collect();
+                match build(&r.graph, &scaled) {
+                    BuildOutcome::Ok(s) => Some(s),
+                    _ => None,
+                }
+            });
+            let subject: &Sampler = scaled_sampler.as_ref().unwrap_or(&r.sampler);
+            let want = outcome_bits(&subject.sample(&x, &r.ed, &st));
             for (name, s2) in [
-                ("json", Sampler::from_json_str(d, &r.sampler.to_json_string())),
-                ("cbor", Sampler::from_cbor(d, &r.sampler.to_cbor())),
+                ("json", Sampler::from_json_str(d, &subject.to_json_string())),
+                ("cbor", Sampler::from_cbor(d, &subject.to_cbor())),
+                ("positional", subject.to_seq_value().and_then(|v| Sampler::from_seq_value(d, v))),
             ] {
                 match s2 {
                     Ok(s2) => {
